@@ -1,5 +1,5 @@
 (* ABI entries for C18 *)
-From Coq Require Import List NArith Arith Bool.
+From Coq Require Import List NArith Arith Bool FMapPositive.
 From MDW Require Import Bytes DsoDebug DsoStream MemInfo AbiBase.
 Import ListNotations.
 Local Open Scope N_scope.
@@ -10,9 +10,16 @@ Fixpoint dec_regions (n : nat) (l : list N) : list (N * bytes) * list N :=
   | S k, base :: rest => let '(b, r) := take_vec rest in let '(rs, r') := dec_regions k r in ((base, b) :: rs, r')
   | _, _ => ([], l)
   end.
+(* each region's bytes are put into a binary trie once, so that a byte access costs O(log n) *)
+Fixpoint trie_of (b : bytes) (idx : positive) (t : PositiveMap.t N) : PositiveMap.t N :=
+  match b with
+  | [] => t
+  | x :: r => trie_of r (Pos.succ idx) (PositiveMap.add idx x t)
+  end.
 Definition regions_mem (rs : list (N * bytes)) : mem :=
-  fun a => match find (fun '(base, b) => (base <=? a) && (a <? base + N.of_nat (length b))) rs with
-           | Some (base, b) => nth_error b (N.to_nat (a - base))
+  let tries := map (fun '(base, b) => (base, N.of_nat (length b), trie_of b 1%positive (PositiveMap.empty N))) rs in
+  fun a => match find (fun '(base, len, _) => (base <=? a) && (a <? base + len)) tries with
+           | Some (base, _, t) => PositiveMap.find (N.succ_pos (a - base)) t
            | None => None
            end.
 
